@@ -165,11 +165,14 @@ def monitorProbed (script : List Cmd) (iters : List Iter) (d : Nat) (answersOnly
       let asked := ((pk.filter fun q => q.k < p.k && q.ifi == p.ifi && !q.resp &&
         q.m.questions.any fun qu => lower qu.name == lower r.name && qu.ty == 255).map (·.t)).eraseDups
       let what := s!"rec={hexOfBytes r.name}/{r.ty} if={p.ifi} t={p.t} probes={probeTimes pk p.ifi p.k r}"
+      -- (the label of the lost tiebreak comes after the mechanisms that explain the record by
+      -- themselves - a late iteration, a re-registration: since the repair of D34 a competing probe
+      -- that was read is not a reason any more)
       if renamedName && probedBy asked p.t then some s!"record-missing-from-first-probe-after-rename {what}"
-      else if tiebreak then some s!"probe-resumes-without-wakeup-after-lost-tiebreak {what}"
       else if timeJump then some s!"announced-with-fewer-than-three-probes-late-iteration {what}"
       else if sameInst then some s!"answered-while-address-still-probing {what}"
       else if sharedHost then some s!"announced-with-fewer-than-three-probes-shared-probe {what}"
+      else if tiebreak then some s!"probe-resumes-without-wakeup-after-lost-tiebreak {what}"
       else some s!"record-sent-before-three-probes {what}"
 
 /-- announce events of daemon `d`: (iteration, instance lower-cased, "host:intf") -/
